@@ -126,10 +126,12 @@ class DeepLiftShap(Contract):
                 dict(refs='tensor', na=1, mode='raw', rr=False),
                 dict(refs='seeded', na=0, mode='hypothetical', rr=True),
                 dict(refs='seeded', na=1, mode='processed', rr=True),
-                dict(refs='unseeded', na=0, mode='processed', rr=False)]
+                dict(refs='unseeded', na=0, mode='processed', rr=False),
+                dict(refs='tensor', na=0, mode='raw', rr=False, extra_ops=True)]
 
     def cfg_name(self, cfg):
-        return '%s,args=%d,%s%s' % (cfg['refs'], cfg['na'], cfg['mode'], ',return_references' if cfg['rr'] else '')
+        return '%s,args=%d,%s%s%s' % (cfg['refs'], cfg['na'], cfg['mode'], ',return_references' if cfg['rr'] else '',
+                                      ',additional_nonlinear_ops' if cfg.get('extra_ops') else '')
 
     def scopes(self, cfg):
         return [{'default': 2, 'n_shuffles': 2, 'ns': 2, 'batch_size': 3}, {'default': 2, 'N': 3, 'n_shuffles': 2, 'ns': 2, 'batch_size': 1},
@@ -157,7 +159,17 @@ class DeepLiftShap(Contract):
         kw = dict(args=args, target=target, batch_size=bs, references=references, n_shuffles=ns, return_references=cfg['rr'],
                   hypothetical=cfg['mode'] == 'hypothetical', raw_outputs=cfg['mode'] == 'raw', device='cpu', random_state=seed,
                   warning_threshold=A.real('warning_threshold'))
+        if cfg.get('extra_ops'):
+            # a user-supplied rule for one more layer type: it must stay local to this call
+            from vf.values import LibFn
+            kw['additional_nonlinear_ops'] = {('libref', 'torch.nn.Softsign'): LibFn('user.softsign_rule')}
         return [model, X], kw
+
+    def repair_concrete(self, cfg, args, kwargs):
+        if cfg.get('extra_ops'):
+            from vf.models import ExtraOps
+            kwargs = dict(kwargs, additional_nonlinear_ops=ExtraOps.build())
+        return args, kwargs
 
     # -------------------------------------------------------------- specification vocabulary
     @staticmethod
